@@ -18,6 +18,8 @@ import Gv.Proofs.PhylipHeader
 import Gv.Proofs.NexusHeader
 import Gv.Proofs.PhylipMulti
 import Gv.Proofs.Utf8Norm
+import Gv.Proofs.Utf8Header
+import Gv.Proofs.FastaRunes
 /-!
 C03 — parsers terminate on every input with an error or a well-formed result.
 
@@ -959,27 +961,61 @@ example : Fasta.parseBytes true {} [62, 97, 10, 65, 67, 0xFF, 10, 62, 98, 10, 65
     Bag.add, Bag.find]
   decide
 
+/-! ### FASTA: the rune lexer IS the byte lexer on `Utf8.norm`
+
+`Model/Fmt/FastaRunes.lean` mirrors `io/fasta/lexer.go` on runes (`read()` = next rune or rune 0, `unread`, literals written
+with `WriteRune`).  The byte lexer `Fasta.scan` / `Fasta.lex`, on which `Fasta.parse` and all FASTA theorems are built, run
+on `Utf8.norm bs` yields exactly the tokens of the rune lexer on `Utf8.runes bs` - proved, not argued. -/
+
+/-- one `Scan`: for every list of runes, the byte lexer on the written runes returns the rune lexer's token (literal
+written with `WriteRune`) and leaves the written rest -/
+theorem fasta_rune_scan (rs : List Nat) :
+    Fasta.scan (FastaRunes.enc rs) = ((FastaRunes.scanRunes rs).1.bytes, FastaRunes.enc (FastaRunes.scanRunes rs).2) :=
+  Gv.Proofs.FastaRunes.scan_enc rs
+
+/-- the whole token list, ALL byte strings: `Fasta.parseBytes` reads its input only through `Fasta.lex (Utf8.norm bs)`,
+which is the token list of the rune lexer on the runes of the raw input -/
+theorem fasta_rune_lexer (bs : List Byte) :
+    Fasta.lex (Utf8.norm bs) =
+      (FastaRunes.lexRunes ((Utf8.runes bs).length + 1) (Utf8.runes bs)).map FastaRunes.Tok.bytes :=
+  Gv.Proofs.FastaRunes.lex_norm bs
+
+/-- non-vacuity: `>a\nA\xff\n` - the rune lexer sees U+FFFD, the parser receives `EF BF BD` -/
+example : FastaRunes.lexRunes 8 (Utf8.runes [62, 97, 10, 65, 0xFF, 10]) =
+    [.start, .ident [97], .eol, .ident [65, 0xFFFD], .eol, .eof] := by decide
+
 /-! ### Phylip, partition, Clustal, Stockholm, Nexus on the raw input -/
 
 theorem phylip_parseBytes_ascii (af : Bool) (o : POpts) (bs : List Byte) (h : allAscii bs = true) :
     Phylip.parseBytes af o bs = Phylip.parse af o bs := by
   unfold Phylip.parseBytes; rw [Gv.Proofs.Utf8Norm.norm_of_ascii bs h]
 
+/-- the naive header scanner and the blank-input test read the same thing off the raw input and off what the lexer
+holds, ALL byte strings (the scanners read ASCII blanks, signs and digits and stop at the first other byte; `norm` keeps
+every ASCII byte in place and writes bytes ≥ 0x80 for everything else) -/
+theorem phylip_header_reading_raw (bs : List Byte) :
+    Spec.Fmt.declaredPhylip (Utf8.norm bs) = Spec.Fmt.declaredPhylip bs ∧
+    Spec.Fmt.blankToNul (Utf8.norm bs) = Spec.Fmt.blankToNul bs :=
+  ⟨Gv.Proofs.Utf8Header.declaredPhylip_norm bs, Gv.Proofs.Utf8Header.blankToNul_norm bs⟩
+
 /-- **Phylip (strict and relaxed) on the raw input, the complete C03 statement for ALL byte strings** (bytes ≥ 128
 included; strict names are ten RUNES) and all options: an explicit error, an exit with a message, the end-of-stream marker
-(then what the lexer read is blank up to its first NUL), or an alignment that is well formed - rectangular in BYTES AS
-WRITTEN - and agrees with the counts of the header line as the lexer holds it; never a panic, never a hang. -/
+(then the RAW input is blank up to its first NUL), or an alignment that is well formed - rectangular in BYTES AS
+WRITTEN - and agrees with the counts of the header line of the RAW input (the reading of the oracle predicate); never a
+panic, never a hang. -/
 theorem phylip_outcome_bytes (o : POpts) (bs : List Byte) :
     match Phylip.parseBytes false o bs with
     | .ok (some a) =>
       Spec.Fmt.wellFormed a.length a.rows = true ∧
-      (match Spec.Fmt.declaredPhylip (Utf8.norm bs) with
+      (match Spec.Fmt.declaredPhylip bs with
        | some (dn, dl) => Spec.Fmt.rowsOk (normIgnore o.ignore != 0) (a.rows.length : Int) dn = true ∧ a.length = dl
        | none => True)
-    | .ok none => Spec.Fmt.blankToNul (Utf8.norm bs) = true
+    | .ok none => Spec.Fmt.blankToNul bs = true
     | .error | .exit => True
-    | .panic | .hang => False :=
-  phylip_outcome_full o (Utf8.norm bs)
+    | .panic | .hang => False := by
+  have h := phylip_outcome_full o (Utf8.norm bs)
+  rw [(phylip_header_reading_raw bs).1, (phylip_header_reading_raw bs).2] at h
+  exact h
 
 /-- **`ParseMultiple` on the raw input terminates**, ALL byte strings and options: alignments handed on are well formed;
 no panic, no hang, no allocation band. -/
@@ -1005,47 +1041,46 @@ theorem partition_outcome_bytes (r : Bool) (len : Nat) (hlen : (len : Int) < 922
     | .exit | .panic | .hang => False :=
   partition_outcome r len hlen (Utf8.norm bs)
 
-/-- the C03 predicate on an answer of a raw-input model that makes no claim for some inputs -/
-def GoodOpt : Option (Outcome Aln) → Prop
-  | some r => Good r
-  | none => True
+/-- **Clustal (row-index repair) on the raw input**: the full C03 statement for ALL byte strings (no exception: the keyword
+test of the model upper-cases rune-wise, U+0131 / U+017F included) and all options -/
+theorem clustal_outcome_bytes (o : POpts) (bs : List Byte) : Good (Clustal.parseBytes true o bs) :=
+  clustal_outcome_fixed o (Utf8.norm bs)
 
-/-- **Clustal (row-index repair) on the raw input**: the full C03 statement for ALL byte strings on which the model makes a
-claim (every input without the runes U+0131 / U+017F) and all options -/
-theorem clustal_outcome_bytes (o : POpts) (bs : List Byte) : GoodOpt (Clustal.parseBytes true o bs) := by
-  unfold Clustal.parseBytes; split
-  · trivial
-  · exact clustal_outcome_fixed o (Utf8.norm bs)
+/-- the keyword is recognised through the fold runes: `cluſtal\n\na AC\n  *\n` (`ſ` = `C5 BF`) is a Clustal file -/
+example : Clustal.parseBytes true {} [99, 108, 117, 0xC5, 0xBF, 116, 97, 108, 10, 10, 97, 32, 65, 67, 10, 32, 32, 42, 10] =
+    .ok ⟨1, 2, [([97], [65, 67])]⟩ := by decide
 
-/-- **Stockholm (patched) on the raw input**: likewise -/
-theorem stockholm_outcome_bytes (o : POpts) (bs : List Byte) : GoodOpt (Stockholm.parseBytes true true o bs) := by
-  unfold Stockholm.parseBytes; split
-  · trivial
-  · exact stockholm_outcome_fixed o (Utf8.norm bs)
+/-- **Stockholm (patched) on the raw input**: likewise, ALL byte strings without exception -/
+theorem stockholm_outcome_bytes (o : POpts) (bs : List Byte) : Good (Stockholm.parseBytes true true o bs) :=
+  stockholm_outcome_fixed o (Utf8.norm bs)
 
-/-- **Nexus (comment and empty-row repairs) on the raw input**: likewise -/
+/-- the header is recognised through the fold rune: `# ſtockholm 1.0\na AC\n//\n` (`ſ` = `C5 BF`) -/
+example : Stockholm.parseBytes true true {} [35, 32, 0xC5, 0xBF, 116, 111, 99, 107, 104, 111, 108, 109, 32, 49, 46, 48, 10, 97, 32, 65, 67, 10, 47, 47, 10] =
+    .ok ⟨1, 2, [([97], [65, 67])]⟩ := by decide
+
+/-- **Nexus (comment and empty-row repairs) on the raw input**: likewise, ALL byte strings without exception -/
 theorem nexus_outcome_bytes (f : Nexus.Facts) (hc : f.commentStopsAtEof = true) (he : f.rejectsEmptyRows = true)
-    (o : POpts) (bs : List Byte) : GoodOpt (Nexus.parseBytes f o bs) := by
-  unfold Nexus.parseBytes; split
-  · trivial
-  · exact nexus_outcome_fixed f hc he o (Utf8.norm bs)
+    (o : POpts) (bs : List Byte) : Good (Nexus.parseBytes f o bs) :=
+  nexus_outcome_fixed f hc he o (Utf8.norm bs)
 
-/-- the claim is made for every ASCII input, and there the raw-input models are the ASCII models -/
+/-- the keywords are recognised through the fold runes: `#NEXUſ\nbegın data;\nmatrıx\na AC\n;\nend;\n`
+(`ſ` = `C5 BF`, `ı` = `C4 B1`) -/
+example : Nexus.parseBytes ⟨true, true, true, true, true, true, true⟩ {}
+    [35, 78, 69, 88, 85, 0xC5, 0xBF, 10, 98, 101, 103, 0xC4, 0xB1, 110, 32, 100, 97, 116, 97, 59, 10,
+     109, 97, 116, 114, 0xC4, 0xB1, 120, 10, 97, 32, 65, 67, 10, 59, 10, 101, 110, 100, 59, 10] =
+    .ok ⟨1, 2, [([97], [65, 67])]⟩ := by decide
+
+/-- on an ASCII input the raw-input models are the ASCII models -/
 theorem parseBytes_ascii_claim (bs : List Byte) (h : allAscii bs = true) :
-    (∀ c o, Clustal.parseBytes c o bs = some (Clustal.parse c o bs)) ∧
-    (∀ m e o, Stockholm.parseBytes m e o bs = some (Stockholm.parse m e o bs)) ∧
-    (∀ f o, Nexus.parseBytes f o bs = some (Nexus.parse f o bs)) ∧
+    (∀ c o, Clustal.parseBytes c o bs = Clustal.parse c o bs) ∧
+    (∀ m e o, Stockholm.parseBytes m e o bs = Stockholm.parse m e o bs) ∧
+    (∀ f o, Nexus.parseBytes f o bs = Nexus.parse f o bs) ∧
     (∀ f len, Partition.parseBytes f len bs = Partition.parse f len bs) := by
   have hn := Gv.Proofs.Utf8Norm.norm_of_ascii bs h
-  have hf : Utf8.hasFoldRune bs = false := Gv.Proofs.Utf8Norm.hasFoldRune_ascii bs h
   refine ⟨?_, ?_, ?_, ?_⟩
-  · intro c o; simp [Clustal.parseBytes, hf, hn]
-  · intro m e o; simp [Stockholm.parseBytes, hf, hn]
-  · intro f o; simp [Nexus.parseBytes, hf, hn]
+  · intro c o; simp [Clustal.parseBytes, hn]
+  · intro m e o; simp [Stockholm.parseBytes, hn]
+  · intro f o; simp [Nexus.parseBytes, hn]
   · intro f len; simp [Partition.parseBytes, hn]
-
-/-- the claim is made beyond ASCII: `CLUSTAL W\n\na\xff A€\n` -/
-example : (Clustal.parseBytes true {} [67, 76, 85, 83, 84, 65, 76, 32, 87, 10, 10, 97, 0xFF, 32, 65, 0xE2, 0x82, 0xAC, 10]).isSome = true := by
-  decide
 
 end Gv.Props.C03
